@@ -388,7 +388,7 @@ def gen_scripts(ctx):
     thorough = ctx.tier == "thorough"
     res = []
     sid = 0
-    reps = 12 if thorough else 5
+    reps = 12 if thorough else 4
     for _ in range(reps):
         for kind in ("bdd", "bcdd"):
             for flavour, length, nvs in (("apply", 6, (4, 5)), ("apply", 9, (4,)), ("quant", 4, (4,)), ("pick", 4, (4,)), ("tt", 2, (4,))):
